@@ -1,5 +1,5 @@
 import Driver.SimStep
-import Q1t.Model.StabFlat
+import Q1t.Model.StabSim
 import Q1t.Model.Builders
 import Q1t.Model.ExportClass
 import Q1t.Spec.WellFormed
@@ -173,6 +173,7 @@ partial def conjOfTerm18 (g : GateTerm Float) : Q1t.Tableau.Tab.Conj := fun ops 
       if ops.length ≠ n then .error (.invalidNrBits ops.length n) else conjOps18 body ops false
   | .Loop _ iters _ n body =>
       if ops.length ≠ n then .error (.invalidNrBits ops.length n) else
+      if !Q1t.Conj.allStabT Q1t.Gen.conjTable body then .error .notAStabilizer else
       (List.range iters).foldl (fun acc _ =>
         match acc with
         | .error e => .error e
@@ -193,9 +194,10 @@ partial def conjOps18 : OpList Float → List Q1t.Tableau.P → Bool → Except 
         conjOps18 rest ops' (f != f')
 end
 
-/-- the stabilizer backend, reading over-long `peek_all` lists through the flat cell array -/
+/-- the stabilizer backend (over-long `peek_all` lists are rejected by the length check now, so the flat-array
+reading of `Model/StabFlat.lean` is gone) -/
 def stabBF : Backend CFloat Float StabState :=
-  stabBackendFlat (⟨0.5, 0.0⟩ : CFloat) Q1t.Gen.phaseTable conjOfTerm18
+  stabBackend (⟨0.5, 0.0⟩ : CFloat) Q1t.Gen.phaseTable conjOfTerm18
 
 /-- does the operation place a gate on a repeated qubit? -/
 def hasDupQubits : COp Float → Bool
